@@ -72,6 +72,17 @@ pub fn benign_plan(rng: &mut Rng, len: usize) -> Vec<IoStep> {
     plan
 }
 
+/// Where a hard error may land: among the first calls (most runs: the stream is still live
+/// there) or, one time in three, anywhere in the plan — an error after many successful reads,
+/// when a reader has already consumed kilobytes, is its own situation.
+pub fn hard_error_window(rng: &mut Rng, plan_len: usize) -> usize {
+    if rng.chance(1, 3) {
+        plan_len + 2
+    } else {
+        (plan_len + 2).min(8)
+    }
+}
+
 /// Insert one hard error at a seeded call position.
 pub fn with_hard_error(rng: &mut Rng, mut plan: Vec<IoStep>, max_at: usize) -> Vec<IoStep> {
     let at = rng.usize_below(max_at.max(1));
